@@ -9,6 +9,8 @@
 #include <cstdint>
 #include <unistd.h>
 #include <sys/wait.h>
+#include <sys/mman.h>
+#include <iomanip>
 #include <fstream>
 #include <iostream>
 #include <locale>
@@ -204,6 +206,37 @@ static std::string fullApi(const ParameterTree& pt, const std::vector<std::strin
       ParameterTree w(std::move(y)); y["n"] = "2";
       try { if (!y.hasKey("n") || y.get<int>("n") != 2) c += "use-moved-from "; } catch (const Dune::Exception&) { c += "use-moved-from "; }
     }
+    { // DIMENSION AUDIT 2 (A): assignment / move-assignment / swap / assignment through a subtree reference onto a
+      // target that ALREADY HOLDS OTHER content (values, nested subtrees, its own key order, a prefix): the result
+      // must be exactly what a fresh target gives -- in the key lists (dump) AND in the maps (report) -- and
+      // nothing of the old content may be reachable any more
+      auto state = [](const ParameterTree& t) { std::ostringstream os; t.report(os, "S:"); return dump(t) + "/" + os.str(); };
+      auto old = [] { ParameterTree o; o["junk"] = "1"; o["old.deep.k"] = "2"; o["old.v"] = "3"; o["a"] = "old-a"; o["zz.new"] = "9"; o["b.c"] = "old-bc"; return o; };
+      static const char* oldKeys[] = {"junk", "old.deep.k", "old.v", "a", "zz.new", "b.c", "old", "old.deep", "zz", "b"};
+      auto probe = [&](const ParameterTree& t) {
+        std::string r;
+        for (const char* k : oldKeys) {
+          try { r += t.hasKey(k) ? "1" : "0"; } catch (const Dune::RangeError&) { r += "E"; }
+          try { r += t.hasSub(k) ? "1" : "0"; } catch (const Dune::RangeError&) { r += "E"; }
+        }
+        return r;
+      };
+      const ParameterTree fresh(pt);
+      const std::string want = state(fresh) + probe(fresh), wantOld = state(old());
+      { ParameterTree t1 = old(); t1 = pt; if (state(t1) + probe(t1) != want) c += "assign-onto-content "; }
+      { ParameterTree t2 = old(); t2 = ParameterTree(pt); if (state(t2) + probe(t2) != want) c += "move-assign-onto-content "; }
+      { ParameterTree t3 = old(); t3.sub("old") = pt; const ParameterTree& c3 = t3;
+        if (state(c3.sub("old")) + probe(c3.sub("old")) != want || !c3.hasKey("junk") || c3.getSubKeys().size() != 3) c += "assign-onto-subtree "; }
+      { ParameterTree x(pt), y = old(); std::swap(x, y);
+        if (state(y) + probe(y) != want || state(x) != wantOld) c += "swap-with-content "; }
+      { ParameterTree t5 = old(); ParameterTree e; t5 = e; if (state(t5) != "{|}/" || probe(t5) != std::string(20, '0')) c += "assign-empty-onto-content "; }
+    }
+    { // DIMENSION AUDIT 2 (C): report() into a stream with unusual formatting state (only strings are printed)
+      std::ostringstream a1, a3; pt.report(a1, "");
+      a3 << std::hex << std::showbase << std::uppercase << std::left << std::boolalpha << std::setprecision(2); a3.fill('*');
+      pt.report(a3, "");
+      if (a1.str() != a3.str()) c += "report-fmtflags ";
+    }
     { // report() with its default arguments (std::cout, "") = report(os, "")
       std::ostringstream a1, a2; pt.report(a1, "");
       std::streambuf* old = std::cout.rdbuf(a2.rdbuf()); pt.report(); std::cout.rdbuf(old);
@@ -295,6 +328,8 @@ static std::string getCase(const std::string& ty, const std::string& v)
   if (ty == "uchar") return getAsChar<unsigned char>(v);
   if (ty == "schar") return getAsChar<signed char>(v);
   if (ty == "flt") return getAs<float>(v);
+  if (ty == "vecf") return getAs<std::vector<float>>(v);
+  if (ty == "arr2d") return getAs<std::array<double, 2>>(v);
   if (ty == "vecvec") return getAs<std::vector<std::vector<int>>>(v);
   if (ty == "short") return getAs<short>(v);
   if (ty == "ushort") return getAs<unsigned short>(v);
@@ -343,6 +378,32 @@ struct CommaPunct : std::numpunct<char>
   std::string do_grouping() const override { return "\3"; }
 };
 
+// DIMENSION AUDIT 2 (C): an argument vector in READ-ONLY memory (a write into argv is a crash) whose pointer array
+// goes on behind argc with `extra` further non-NULL entries before the terminating NULL ("capacity exceeds size").
+struct RoArgv
+{
+  void* base = nullptr; std::size_t len = 0; char** av = nullptr; int argc = 0;
+  RoArgv(const std::vector<std::string>& counted, const std::vector<std::string>& extra)
+  {
+    std::size_t n = counted.size() + extra.size(), bytes = (n + 1) * sizeof(char*);
+    for (const auto& a : counted) bytes += a.size() + 1;
+    for (const auto& a : extra) bytes += a.size() + 1;
+    len = (bytes / 4096 + 1) * 4096;
+    base = mmap(nullptr, len, PROT_READ | PROT_WRITE, MAP_PRIVATE | MAP_ANONYMOUS, -1, 0);
+    if (base == MAP_FAILED) { base = nullptr; return; }
+    av = static_cast<char**>(base);
+    char* p = static_cast<char*>(base) + (n + 1) * sizeof(char*);
+    std::size_t i = 0;
+    for (const auto* v : {&counted, &extra})
+      for (const auto& a : *v) { std::memcpy(p, a.c_str(), a.size() + 1); av[i++] = p; p += a.size() + 1; }
+    av[i] = nullptr;
+    argc = (int) counted.size();
+    mprotect(base, len, PROT_READ);
+  }
+  ~RoArgv() { if (base) munmap(base, len); }
+  RoArgv(const RoArgv&) = delete;
+};
+
 int main(int argc, char** argv)
 {
   if (argc > 2 && std::string(argv[2]) == "comma-locale")
@@ -376,11 +437,28 @@ int main(int argc, char** argv)
           if (s2 + " " + dump(p2) != obs) ov += "stream+srcname "; }
         { // the overloads that return a tree start from an empty one and overwrite
           ParameterTree e; std::string s0 = guarded([&] { readDoc(doc, e, true); }); std::string o0 = s0 + " " + dump(e);
+          // (audit 2, A) the receiving trees already hold other content
           ParameterTree r1, r2;
+          r1["junk"] = "1"; r1["old.deep.k"] = "2"; r2["a"] = "old"; r2["a2.b"] = "old";
           std::string s1 = guarded([&] { std::istringstream in(doc); r1 = ParameterTreeParser::readINITree(in); });
           std::string s2 = guarded([&] { r2 = ParameterTreeParser::readINITree(tmpFile()); });
-          if (s1 != s0 || (s0 == "ok" && s1 + " " + dump(r1) != o0)) ov += "stream-returning ";
-          if (s2 != s0 || (s0 == "ok" && s2 + " " + dump(r2) != o0)) ov += "file-returning ";
+          auto rep = [](const ParameterTree& t) { std::ostringstream os; t.report(os); return os.str(); };
+          if (s1 != s0 || (s0 == "ok" && (s1 + " " + dump(r1) != o0 || rep(r1) != rep(e)))) ov += "stream-returning ";
+          if (s2 != s0 || (s0 == "ok" && (s2 + " " + dump(r2) != o0 || rep(r2) != rep(e)))) ov += "file-returning ";
+        }
+        { // (audit 2, C/A) attributes and earlier use of the input stream: a stream that has been read in part, a
+          // stream without skipws, a stream that was read to its end before and rewound
+          { ParameterTree p2(pre); std::istringstream in("skipped = line\n" + doc); std::string l; std::getline(in, l);
+            std::string s2 = guarded([&] { ParameterTreeParser::readINITree(in, p2, ow); });
+            if (s2 + " " + dump(p2) != obs) ov += "stream-preconsumed "; }
+          { ParameterTree p2(pre); std::istringstream in(doc); in >> std::noskipws >> std::hex; in.width(3);
+            std::string s2 = guarded([&] { ParameterTreeParser::readINITree(in, p2, ow); });
+            if (s2 + " " + dump(p2) != obs) ov += "stream-noskipws "; }
+          { ParameterTree scratch, p2(pre); std::istringstream in(doc);
+            guarded([&] { ParameterTreeParser::readINITree(in, scratch, true); });
+            in.clear(); in.seekg(0);
+            std::string s2 = guarded([&] { ParameterTreeParser::readINITree(in, p2, ow); });
+            if (s2 + " " + dump(p2) != obs) ov += "stream-rewound "; }
         }
         if (ow) { // default arguments: readINITree(in, pt) and readINITree(file, pt) overwrite
           { ParameterTree p2(pre); std::istringstream in(doc); std::string s2 = guarded([&] { ParameterTreeParser::readINITree(in, p2); });
@@ -453,6 +531,42 @@ int main(int argc, char** argv)
         else
           st = guarded([&] { ParameterTreeParser::readNamedOptions((int) store.size(), av.data(), pt, kw, req, t[2] == "1", t[3] == "1", help); });
       }
+      out = st + " " + dump(pt);
+      { // (audit 2, C) the same call on a read-only argument vector whose array is longer than argc, and the
+        // arguments must not have been modified by the first call.  readOptions looks at argv[argc] when the last
+        // counted argument is an option (its missing-value test is argv[i+1] == NULL): no extra entries then.
+        std::string av_verdict = "ok";
+        { std::size_t i = 1; for (const auto& a : args) { if (std::string(store[i].data()) != a || store[i].size() != a.size() + 1) av_verdict = "argv-modified"; ++i; } }
+        std::vector<std::string> counted{"prog"}; counted.insert(counted.end(), args.begin(), args.end());
+        std::vector<std::string> extra{"-zz", "EXTRA", "--x=1", "-h"};
+        if (t[0] == "opt" && st != "ok") extra.clear();
+        RoArgv ro(counted, extra);
+        if (ro.base) {
+          ParameterTree p2; std::string s2;
+          if (t[0] == "opt") s2 = guarded([&] { ParameterTreeParser::readOptions(ro.argc, ro.av, p2); });
+          else {
+            guarded([&] { readDoc(strField(t[6]), p2, true); });
+            std::vector<std::string> kw = listField(t[4]);
+            unsigned req = (unsigned) std::stoul(t[1]);
+            const std::vector<std::string> ckw(kw);      // a const keyword list, passed as a temporary copy
+            s2 = guarded([&] { ParameterTreeParser::readNamedOptions(ro.argc, ro.av, p2, std::vector<std::string>(ckw), req, t[2] == "1", t[3] == "1"); });
+          }
+          if (s2 + " " + dump(p2) != out && av_verdict == "ok") av_verdict = "readonly-oversized-argv-differs:" + s2 + ":" + dump(p2);
+        }
+        out += " AV=" + av_verdict;
+      }
+    }
+    else if (t[0] == "optn") {
+      // readOptions(argc, argv, pt) with argc - 1 = t[1] counted arguments and an array that holds ALL of t[2]
+      // (the rest lies behind the count), NULL-terminated, read-only
+      std::size_t n = (std::size_t) std::stoul(t[1]);
+      std::vector<std::string> all = listField(t[2]);
+      if (n > all.size()) n = all.size();
+      std::vector<std::string> counted{"prog"}; counted.insert(counted.end(), all.begin(), all.begin() + n);
+      std::vector<std::string> extra(all.begin() + n, all.end());
+      RoArgv ro(counted, extra);
+      ParameterTree pt;
+      std::string st = guarded([&] { ParameterTreeParser::readOptions(ro.argc, ro.av, pt); });
       out = st + " " + dump(pt);
     }
     else out = "UNKNOWN-OP";
